@@ -77,6 +77,8 @@ def gen_loc_forest(rng):
             holder.children.append(d)
         units.append(u)
     f = Forest(units)
+    if rng.random() < 0.5:
+        f.abbrev_decl_seed = rng.getrandbits(30)
     w = dwgen.Writer(f)
     w.layout()
     sec = dwloc.LocSection()
